@@ -9,7 +9,7 @@ from pdb2sql import StructureSimilarity, pdb2sql
 ID = 'C07'
 LEVEL = 'proof'
 CLUSTER = 'E'
-GEN_UNITS = ['zone_line', 'read_zone_line', 'rotate']
+GEN_UNITS = ['zone_line', 'read_zone_line', 'rotate', 'get_rmsd']
 EXTRA_TARGETS = ['PdbVerif.Proofs.RmsdRoutes']      # route-agreement lemmas re-exported by Props/C09.lean
 MODELS = ['Model.Rmsd.irmsdFast', 'Model.Rmsd.irmsdSql', 'Model.Rmsd.lrmsdFast', 'Model.Rmsd.lrmsdSql']
 RULE = ('synthetic two-chain complexes from complexgen (3-15 residues per chain, backbone + 0-4 side-chain atoms, optional hydrogens, '
@@ -335,6 +335,23 @@ def mk(dec, ref, cutoff, enforce, family, check=True, izone=None, lzone=None, we
 CUTOFFS = [10, 10, 10, 5, 6, 7.5, 8, 9, 12]
 
 
+def equalize(ref):
+    """same number of ATOMS in both chains (chains of equal residue count): the tie rule decides the fitted chain"""
+    for r in ref.residues:
+        r['atoms'] = r['atoms'][:5]
+    by = {}
+    for r in ref.residues:
+        by.setdefault(r['chain'], []).append(r)
+    a, b = list(by)
+    while sum(len(r['atoms']) for r in by[a]) != sum(len(r['atoms']) for r in by[b]):
+        big_ = a if sum(len(r['atoms']) for r in by[a]) > sum(len(r['atoms']) for r in by[b]) else b
+        cand = [r for r in by[big_] if len(r['atoms']) > 4]
+        if not cand:
+            break
+        cand[0]['atoms'] = cand[0]['atoms'][:-1]
+    return ref
+
+
 def gen_pair(rng, kind=None, big=False):
     """(reference, decoy) complexes"""
     kind = kind or rng.choice(['jitter', 'jitter', 'rigid', 'del_dec', 'del_dec', 'del_ref', 'del_both', 'identical', 'equal'])
@@ -344,19 +361,7 @@ def gen_pair(rng, kind=None, big=False):
         nB = nA
     ref = cg.make_complex(rng, nA=nA, nB=nB, chains=rng.choice([('A', 'B'), ('A', 'B'), ('B', 'A'), ('H', 'L'), ('X', 'C')]))
     if kind == 'equal':
-        # same number of atoms in both chains: the tie rule decides the fitted chain
-        for r in ref.residues:
-            r['atoms'] = r['atoms'][:5]
-        by = {}
-        for r in ref.residues:
-            by.setdefault(r['chain'], []).append(r)
-        a, b = list(by)
-        while sum(len(r['atoms']) for r in by[a]) != sum(len(r['atoms']) for r in by[b]):
-            big_, small = (a, b) if sum(len(r['atoms']) for r in by[a]) > sum(len(r['atoms']) for r in by[b]) else (b, a)
-            cand = [r for r in by[big_] if len(r['atoms']) > 4]
-            if not cand:
-                break
-            cand[0]['atoms'] = cand[0]['atoms'][:-1]
+        equalize(ref)
     if kind == 'identical':
         return ref, ref.copy(), kind
     dec = cg.jitter(rng, ref, rng.choice([0.2, 0.5, 1.0, 1.5]))
@@ -505,6 +510,15 @@ def cases(ctx):
         else:
             dl, rl = dec.lines(), permuted_lines(rng, ref, level)
         out.append(mk(dl, rl, cutoff, k % 2 == 0, 'perm_' + level))
+    # long-chain tie with chain blocks not in the sorted order of their identifiers
+    for k in range(ctx.scale(4, 24)):
+        n = rng.randint(3, 6)
+        ref = equalize(cg.make_complex(rng, nA=n, nB=n, chains=[('B', 'A'), ('X', 'A'), ('L', 'H')][k % 3]))
+        dec = cg.jitter(rng, ref, rng.choice([0.5, 1.0]))
+        if k % 2:
+            out.append(mk(permuted_lines(rng, dec, 'chains'), permuted_lines(rng, ref, 'chains'), 10, False, 'tie_order'))
+        else:
+            out.append(mk(dec.lines(), ref.lines(), 10, False, 'tie_order'))
     # the regression case of the interleaved decoy
     r0 = __import__('random').Random(1)
     ref = cg.make_complex(r0, nA=4, nB=3, hydrogens=False, numbering='plain', gap=4.5)
@@ -557,6 +571,14 @@ def search_cases(ctx):
         for enf in (False, True):
             ref, dec, _ = gen_pair(rng, kind='jitter')
             out.append(mk(permuted_lines(rng, dec, level), ref.lines(), 10, enf, 'search_perm_' + level))
+    # equal atom counts, chain blocks written in an order that is not the sorted order of their identifiers
+    for chains in (('B', 'A'), ('X', 'A'), ('A', 'B')):
+        for enf in (False, True):
+            n = rng.randint(3, 6)
+            ref = equalize(cg.make_complex(rng, nA=n, nB=n, chains=chains))
+            dec = cg.jitter(rng, ref, 1.0)
+            out.append(mk(dec.lines(), ref.lines(), 10, enf, 'search_tie_order'))
+            out.append(mk(permuted_lines(rng, dec, 'chains'), permuted_lines(rng, ref, 'chains'), 10, enf, 'search_tie_order'))
     for _ in range(8):
         ref, dec, cutoff = lattice_pair(rng)
         out.append(mk(dec.lines(), ref.lines(), cutoff, False, 'search_lattice'))
